@@ -9,6 +9,7 @@ Import ListNotations.
 
 Record wk_case := {
   wk_waiters : nat; wk_ttl : Z; wk_delay_ms : Z;
+  wk_second : bool;                (* does the main goroutine call Get again before the waiters resume? *)
   wk_main2 : tobs;                 (* what the second Get of the main goroutine returned *)
   wk_after_resume : list tobs;     (* each waiter after it was allowed to resume *)
   wk_after_second : list tobs      (* each waiter after the second fetch completed (cacheable, 60 s, rid 2) *)
@@ -20,18 +21,26 @@ Definition chc (ttl : Z) (r : rid) := mkch (OCacheable ttl r) true true.
 Definition waiters_arrive (n : nat) : list label :=
   flat_map (fun w => [Arrive false; Run w ch0; Run w ch0; Run w ch0]) (seq 1 n).
 
-Definition schedule1 (n : nat) (ttl delay : Z) : list label :=
+Definition schedule1 (n : nat) (ttl delay : Z) (second : bool) : list label :=
   [Arrive false; Run 0 ch0; Run 0 ch0]
   ++ waiters_arrive n
   ++ [Run 0 (chc ttl 1); Run 0 ch0]
   ++ repeat (Run 0 ch0) n          (* sends: every waiter is woken (runnable), none has resumed *)
   ++ [Run 0 ch0]                   (* unlock *)
   ++ [Tick delay]
-  ++ [Arrive false; Run (S n) ch0; Run (S n) ch0]   (* the main goroutine's second Get *)
-  ++ [].
+  ++ (if second then [Arrive false; Run (S n) ch0; Run (S n) ch0] else []).  (* the main goroutine's second Get *)
 
 Definition schedule2 (n : nat) : list label :=
   [Run (S n) (chc 60 2); Run (S n) ch0] ++ repeat (Run (S n) ch0) n ++ [Run (S n) ch0].
+
+(** without a second Get: whichever waiter became the fetcher on resuming is completed (cacheable, 60 s, rid 2) *)
+Definition complete_any (n : nat) (s : state) : state :=
+  fold_left (fun s i =>
+               match nth_error (ts s) i with
+               | Some (PFetch _ LFetching) =>
+                   run_skip s ([Run i (chc 60 2); Run i ch0] ++ repeat (Run i ch0) n ++ [Run i ch0])
+               | _ => s
+               end) (seq 1 n) s.
 
 (** let thread [w] run until its next blocking point (upstream, channel, done) *)
 Fixpoint run_to_block (fuel : nat) (s : state) (w : tid) : state :=
@@ -67,13 +76,24 @@ Definition obs_threads' (s : state) (from n : nat) : list tobs :=
 
 Definition wk_model (leg : bool) (c : wk_case) : tobs * list tobs * list tobs :=
   let n := wk_waiters c in
-  let s1 := resume_waiters n (run_skip (init t0_ms 0 false leg) (schedule1 n (wk_ttl c) (wk_delay_ms c))) in
-  let s2 := resume_waiters n (run_skip s1 (schedule2 n)) in
-  (match obs_threads' s1 (S n) 1 with [t] => t | _ => TOther end, obs_threads' s1 1 n, obs_threads' s2 1 n).
+  let s1 := resume_waiters n (run_skip (init t0_ms 0 false leg) (schedule1 n (wk_ttl c) (wk_delay_ms c) (wk_second c))) in
+  let s2 := if wk_second c then resume_waiters n (run_skip s1 (schedule2 n))
+            else resume_waiters n (complete_any n s1) in
+  let fetcher_by_get t := match t with TDone LFetching _ _ => TUpstream LFetching | _ => t end in
+  (if wk_second c then match obs_threads' s1 (S n) 1 with [t] => t | _ => TOther end else TOther,
+   obs_threads' s1 1 n, map fetcher_by_get (obs_threads' s2 1 n)).
+
+(** multiset equality: which of several woken waiters the scheduler resumes
+    first is the runtime's choice and irrelevant to the property *)
+Definition count_tobs (t : tobs) (l : list tobs) : nat := length (filter (tobs_eqb t) l).
+Definition perm_eqb (a b : list tobs) : bool :=
+  Nat.eqb (length a) (length b) && forallb (fun t => Nat.eqb (count_tobs t a) (count_tobs t b)) a.
 
 Definition wk_agrees (c : wk_case) : bool :=
   let '(m2, a1, a2) := wk_model false c in
-  tobs_eqb m2 (wk_main2 c) && list_eqb tobs_eqb a1 (wk_after_resume c) && list_eqb tobs_eqb a2 (wk_after_second c).
+  if wk_second c
+  then tobs_eqb m2 (wk_main2 c) && list_eqb tobs_eqb a1 (wk_after_resume c) && list_eqb tobs_eqb a2 (wk_after_second c)
+  else perm_eqb a1 (wk_after_resume c) && perm_eqb a2 (wk_after_second c).
 
 (** monitor (C01): while the main goroutine's second fetch is in flight no
     woken waiter may come back labelled fetching (it would contact the upstream too) *)
@@ -83,12 +103,23 @@ Definition wk_monitor (c : wk_case) : bool :=
   | _ => true
   end.
 
-Definition check_cases (cs : list wk_case) : list nat * list nat :=
-  (failing wk_agrees 0 cs, failing wk_monitor 0 cs).
+(** monitor (C04): a waiter that resumes after the entry's lifetime is over
+    (aged by at least ttl + 1 whole seconds) is not answered with the expired response (id 1) *)
+Definition wk_monitor_fresh (c : wk_case) : bool :=
+  if (wk_ttl c + 1 <=? wk_delay_ms c / 1000)%Z
+  then forallb (fun t => match t with TDone LHit (Some 1) _ => false | _ => true end) (wk_after_resume c)
+  else true.
+
+(** monitor (C02): after the refetch completed nobody is parked *)
+Definition wk_monitor_done (c : wk_case) : bool :=
+  forallb (fun t => match t with TParked => false | _ => true end) (wk_after_second c).
+
+Definition check_cases (cs : list wk_case) : list nat * list nat * list nat * list nat :=
+  (failing wk_agrees 0 cs, failing wk_monitor 0 cs, failing wk_monitor_fresh 0 cs, failing wk_monitor_done 0 cs).
 
 (** the pinned commit's Get exhibits the double fetch on this schedule *)
 Lemma legacy_double_fetch :
-  let c := {| wk_waiters := 1; wk_ttl := 1; wk_delay_ms := 2100; wk_main2 := TOther;
+  let c := {| wk_waiters := 1; wk_ttl := 1; wk_delay_ms := 2100; wk_second := true; wk_main2 := TOther;
               wk_after_resume := []; wk_after_second := [] |} in
   let '(m2, a1, _) := wk_model true c in
   m2 = TUpstream LFetching /\ a1 = [TUpstream LFetching].
